@@ -160,29 +160,23 @@ def work(chunk):
                     bad = ("read-undecodable:crash", {"rc": rc, "stderr": err[-300:]})
             elif kind == "read-recursive":
                 # `ucg build -r .`: files directly in the directory, one and two levels down all read the same environment
-                # in the same mode
+                # in the same mode. A directory of its own: the walk builds whatever lies around (DESIGN 0.3 item 26).
                 name, quoted, strict = prm
                 import shutil as _sh
-                for sub in ("sub", "top.json", "top.ucg"):
-                    q = os.path.join(d, sub)
-                    if os.path.isdir(q):
-                        _sh.rmtree(q)
-                    elif os.path.exists(q):
-                        os.unlink(q)
-                os.makedirs(os.path.join(d, "sub", "deeper"))
+                rd = os.path.join(d, "recursive-walk")
+                _sh.rmtree(rd, ignore_errors=True)
+                os.makedirs(os.path.join(rd, "sub", "deeper"))
                 rels = ["top.ucg", os.path.join("sub", "mid.ucg"), os.path.join("sub", "deeper", "low.ucg")]
                 for rel in rels:
-                    with open(os.path.join(d, rel), "w") as f:
+                    with open(os.path.join(rd, rel), "w") as f:
                         f.write("out json {v = %s};\n" % sel(name, quoted))
-                if os.path.exists(os.path.join(d, "p.ucg")):
-                    os.unlink(os.path.join(d, "p.ucg"))
                 env = {"HOME": d}
                 env.update(envv)
-                rc, out, err = core.run_ucg((["--no-strict"] if not strict else []) + ["build", "-r", "."], cwd=d, env=env)
+                rc, out, err = core.run_ucg((["--no-strict"] if not strict else []) + ["build", "-r", "."], cwd=rd, env=env)
                 err = err.decode("utf-8", "replace")
                 arts = []
                 for rel in rels:
-                    ap = os.path.join(d, rel[:-4] + ".json")
+                    ap = os.path.join(rd, rel[:-4] + ".json")
                     arts.append(json.load(open(ap)) if os.path.exists(ap) else None)
                 want = envv.get(name)
                 for rel, a in zip(rels, arts):
@@ -202,10 +196,7 @@ def work(chunk):
                             bad = ("read-recursive:unset-nostrict:depth-%d:not-null" % depth, {"rc": rc, "artifact": a, "stderr": err[-300:]})
                     if bad:
                         break
-                _sh.rmtree(os.path.join(d, "sub"))
-                for q in ("top.ucg", "top.json"):
-                    if os.path.exists(os.path.join(d, q)):
-                        os.unlink(os.path.join(d, q))
+                _sh.rmtree(rd, ignore_errors=True)
             elif kind == "read-two":
                 n1, q1, n2, q2, strict = prm
                 rc, err, art = build(d, "let a = %s;\nlet b = %s;\nout json {a = a, b = b};\n" % (sel(n1, q1), sel(n2, q2)), envv, strict)
